@@ -345,7 +345,7 @@ def run(ctx):
         scope = H.asgi_scope(w)
         if rnd.random() < 0.2:
             del scope['raw_path']  # optional in the spec
-        for timeout in (5.0, 60.0):
+        for timeout in (3.0, 20.0):
             setup(p, mode)
             rec = loop.run_until_complete(H.drive_asgi(get_app(True, p, opts), dict(scope), [dict(e) for e in evs], timeout=timeout))
             if not rec['hang']:
@@ -377,7 +377,7 @@ def run(ctx):
                 return ft.simulate_request(get_app(asgi, p, opts), **kw)
             except Exception as e:  # noqa
                 return e
-        res, hung = H.guarded(once, (20.0, 90.0))
+        res, hung = H.guarded(once, (5.0, 30.0))
         try:
             if hung:
                 return CUR['digest'], {'hang': True}
@@ -415,7 +415,11 @@ def run(ctx):
 
     sess = ctx.session('response finalization through the spec-faithful drivers = Fz model (both stacks)', 'fzdriver')
 
-    for ci in range(ctx.n(8000, 80000)):
+    hangs = [0]
+    for ci in range(ctx.n(6000, 80000)):
+        if hangs[0] >= 2:
+            ctx.notes.append(f'shard {ctx.shard[0]}: stopped after case {ci}: the application repeatedly did not return (reported as oracle failures)')
+            break
         w = gen_wire()
         p = R.gen_plan(rnd, sse_ok=False)
         if w.method != p['method']:
@@ -435,6 +439,8 @@ def run(ctx):
         asnap = CUR['snap']
 
         # (a) the two stacks, same wire request through the spec-faithful drivers
+        if 'hang' in rw or 'hang' in ra:
+            hangs[0] += 1
         what = diff(dw, da)
         ctx.oracle('stacks agree: request seen by the responder', what is None, what, case)
         what = None if rw == ra else f'WSGI {rw!r} vs ASGI {ra!r}'
@@ -444,6 +450,8 @@ def run(ctx):
         for asgi, dspec, rspec, rec in ((False, dw, rw, wrec), (True, da, ra, arec)):
             stack = 'asgi' if asgi else 'wsgi'
             dt, rt = via_testing(asgi, w, p, mode, opts)
+            if 'hang' in rt:
+                hangs[0] += 1
             if 'testing_raised' in rt and not asgi and dt is None and malformed_cl(w):
                 ctx.count('testing_wsgi_refused_by_wsgiref_validate(malformed Content-Length)')
                 continue
